@@ -60,13 +60,27 @@ def canon_exc(name: Optional[str]) -> Optional[str]:
     return None
 
 
+#: synthetic class: BaseException minus Exception (what is left of "anything"
+#: after an `except Exception` handler)
+NONEXC = 'NonException'
+
+
 def issub(a: str, b: str) -> bool:
     """a <= b in the lattice."""
+    if a == NONEXC:
+        return b in (NONEXC, 'BaseException')
+    if b == NONEXC:
+        return a != 'BaseException' and not issubclass(_CLASSES[a], Exception) 
     return issubclass(_CLASSES[a], _CLASSES[b])
 
 
 def related(a: str, b: str) -> bool:
     return issub(a, b) or issub(b, a)
+
+
+def carries_exception(classes) -> bool:
+    """May an exception edge with these classes carry an `Exception` instance?"""
+    return bool(classes) and any(related(c, 'Exception') for c in classes)
 
 
 # ---------------------------------------------------------------------------
